@@ -107,6 +107,8 @@ def jobs(tier):
                 for cls, variant in ALLV:
                     if not thorough and config == 'circuit' and (twoq or (heavy and (variant != 'orig' or order == 'bf' or cls == 'Circuit'))):
                         continue
+                    if thorough and N == 3 and twoq and config == 'circuit':
+                        continue        # a symbolic two-qubit map compiled into a three-qubit circuit: phase conjunct beyond 900 s (measured)
                     if swept and (config == 'circuit' or (cls, variant) != ALLV[0]) and not (config == 'circuit' and (cls, variant) == ALLV[0] and order == 'fb' and not heavy):
                         continue        # the sweep runs plain + layer-compiled on the original circuit; the listed programs carry the other variants
                     J.append(dict(harness=R, params=dict(N=N, prog=prog, config=config, cls=cls, variant=variant, order=order),
